@@ -63,6 +63,13 @@ var srcTargets = []srcTarget{
 	{Group: "ValidateClaims", Recv: "Activation", Name: "Validate", Only: "V2"},
 	{Group: "ValidateClaims", Recv: "ActivationClaims", Name: "validateWithTimeChecks", Only: "V2"},
 	{Group: "ValidateClaims", Recv: "ActivationClaims", Name: "Validate", Only: "V2"},
+	{Group: "ValidateClaims", Recv: "Subject", Name: "HasWildCards", Only: "V2"},
+	{Group: "ValidateClaims", Recv: "Subject", Name: "IsContainedIn", Only: "V2"},
+	{Group: "ValidateClaims", Recv: "Import", Name: "IsService", Only: "V2"},
+	{Group: "ValidateClaims", Recv: "Import", Name: "IsStream", Only: "V2"},
+	{Group: "ValidateClaims", Recv: "Import", Name: "GetTo", Only: "V2"},
+	{Group: "ValidateClaims", Recv: "Import", Name: "Validate", Only: "V2"},
+	{Group: "ValidateClaims", Recv: "Imports", Name: "Validate", Only: "V2"},
 	{Group: "ValidateClaims", Recv: "AuthorizationRequestClaims", Name: "Validate", Only: "V2"},
 	{Group: "ValidateClaims", Recv: "AuthorizationResponseClaims", Name: "Validate", Only: "V2"},
 	{Group: "ValidateClaims", Recv: "GenericClaims", Name: "Validate", Only: "V2"},
@@ -225,6 +232,9 @@ func (t *tr) coqType(n ast.Node, ty types.Type) string {
 		}
 		return "(list " + t.coqType(n, u.Elem()) + ")"
 	case *types.Map:
+		if isSetType(ty) {
+			return "(list " + t.coqType(n, u.Key()) + ")"
+		}
 		return "(list (" + t.coqType(n, u.Key()) + " * " + t.coqType(n, u.Elem()) + "))"
 	case *types.Struct:
 		// a struct of plain fields is the tuple of its fields
@@ -316,6 +326,16 @@ func (t *tr) isMap(e ast.Expr) bool {
 	_, ok := t.info.TypeOf(e).Underlying().(*types.Map)
 	return ok
 }
+// isSet: a map to the empty struct, used as a set (a list of its members, in the order they went in)
+func isSetType(ty types.Type) bool {
+	m, ok := ty.Underlying().(*types.Map)
+	if !ok {
+		return false
+	}
+	st, ok := m.Elem().Underlying().(*types.Struct)
+	return ok && st.NumFields() == 0
+}
+func (t *tr) isSet(e ast.Expr) bool { return isSetType(t.info.TypeOf(e)) }
 func (t *tr) isTime(e ast.Expr) bool {
 	named, ok := t.info.TypeOf(e).(*types.Named)
 	return ok && named.Obj().Pkg() != nil && named.Obj().Pkg().Path() == "time" && named.Obj().Name() == "Time"
@@ -803,6 +823,12 @@ func (t *tr) call(x *ast.CallExpr) string {
 				if t.isList(x.Args[0]) {
 					return "(go_llen " + t.expr(x.Args[0]) + ")"
 				}
+			case "make":
+				if tv, ok := t.info.Types[x.Args[0]]; ok && tv.IsType() {
+					if _, isMap := tv.Type.Underlying().(*types.Map); isMap {
+						return "[]" // an empty map (the size hint is not content)
+					}
+				}
 			case "append":
 				// at the level of the visible elements only: what becomes of spare capacity is not modelled
 				if x.Ellipsis.IsValid() && len(x.Args) == 2 {
@@ -823,7 +849,7 @@ func (t *tr) call(x *ast.CallExpr) string {
 				var tys, rtys, as []string
 				suffix := ""
 				for _, a := range x.Args {
-					if prefix, isAbs := t.absPath(a); isAbs && !strings.HasPrefix(prefix, "\x00") {
+					if prefix, isAbs := t.absPath(a); isAbs && !strings.HasPrefix(prefix, "\x00") && !(t.isStr(a) || t.isInt(a) || t.isBool(a)) {
 						suffix += "__" + prefix // applied to an abstract parameter: an observation of it
 						continue
 					}
@@ -954,7 +980,7 @@ func (t *tr) call(x *ast.CallExpr) string {
 				var tys, as []string
 				suffix := ""
 				for _, a := range x.Args {
-					if ap, isAbsArg := t.absPath(a); isAbsArg && !strings.HasPrefix(ap, "\x00") {
+					if ap, isAbsArg := t.absPath(a); isAbsArg && !strings.HasPrefix(ap, "\x00") && !(t.isStr(a) || t.isInt(a) || t.isBool(a)) {
 						suffix += "__" + ap // applied to an abstract value: part of the observation's name
 						continue
 					}
@@ -1330,6 +1356,14 @@ func (t *tr) block0(stmts []ast.Stmt, c sctx, ind string) string {
 					return bindVal + "let " + okName + " := " + t.observe(prefix+"_is_"+tn, "bool") + " in" + nl + t.block(rest, c, ind)
 				}
 			}
+			// _, ok := s[k] for a set
+			if ie, ok := x.Rhs[0].(*ast.IndexExpr); ok && t.isSet(ie.X) && (x.Tok == token.DEFINE || x.Tok == token.ASSIGN) {
+				if id, isId := x.Lhs[0].(*ast.Ident); !isId || id.Name != "_" {
+					t.fail(x, "the value of a set member read")
+				}
+				b := t.lhsName(x.Lhs[1], x.Tok == token.DEFINE)
+				return "let " + b + " := (go_smem " + t.expr(ie.X) + " " + t.expr(ie.Index) + ") in" + nl + t.block(rest, c, ind)
+			}
 			// v, ok := m[k]
 			if ie, ok := x.Rhs[0].(*ast.IndexExpr); ok && t.isMap(ie.X) && (x.Tok == token.DEFINE || x.Tok == token.ASSIGN) {
 				val := "(go_mget " + t.mapExpr(ie.X) + " " + t.expr(ie.Index) + ")"
@@ -1338,6 +1372,15 @@ func (t *tr) block0(stmts []ast.Stmt, c sctx, ind string) string {
 			}
 		}
 		if len(x.Lhs) == 1 && len(x.Rhs) == 1 && x.Tok == token.ASSIGN {
+			// s[k] = struct{}{} for a set held in a local variable
+			if ie, ok := x.Lhs[0].(*ast.IndexExpr); ok && t.isSet(ie.X) {
+				id, isId := ie.X.(*ast.Ident)
+				if !isId || t.names[t.info.Uses[id]] == "" {
+					t.fail(x, "store into a set that is not a local variable")
+				}
+				m := t.names[t.info.Uses[id]]
+				return "let " + m + " := (go_sadd " + m + " " + t.expr(ie.Index) + ") in" + nl + t.block(rest, c, ind)
+			}
 			// m[k] = v
 			if ie, ok := x.Lhs[0].(*ast.IndexExpr); ok && t.isMap(ie.X) {
 				if len(t.mapKey) > 0 {
@@ -1640,25 +1683,37 @@ func (t *tr) block0(stmts []ast.Stmt, c sctx, ind string) string {
 		}
 		return t.block(append([]ast.Stmt{chain}, rest...), c, ind)
 	case *ast.RangeStmt:
-		if t.isMap(x.X) {
+		if t.isMap(x.X) && !t.isSet(x.X) {
 			return t.mapRange(x, rest, c, ind)
 		}
-		if !t.isList(x.X) {
+		if !t.isList(x.X) && !t.isSet(x.X) {
 			t.fail(x, "range over %s", t.info.TypeOf(x.X))
 		}
 		if x.Tok != token.DEFINE && (x.Key != nil || x.Value != nil) {
 			t.fail(x, "range assigning to existing variables")
 		}
 		xs := t.expr(x.X)
-		ety := t.coqType(x, t.info.TypeOf(x.X).Underlying().(*types.Slice).Elem())
+		var ety string
 		vs := t.loopState(x)
 		pat, sty := t.tupleOf(x, vs)
 		key, val := "_", "_"
-		if id, ok := x.Key.(*ast.Ident); ok && id.Name != "_" {
-			key = t.bind(t.info.Defs[id])
-		}
-		if id, ok := x.Value.(*ast.Ident); ok && id.Name != "_" {
-			val = t.bind(t.info.Defs[id])
+		if t.isSet(x.X) {
+			// for k := range set: the members, in the list's order (the body must not depend on the order: trusted reading)
+			ety = t.coqType(x, t.info.TypeOf(x.X).Underlying().(*types.Map).Key())
+			if x.Value != nil {
+				t.fail(x, "range over a set with a value variable")
+			}
+			if id, ok := x.Key.(*ast.Ident); ok && id.Name != "_" {
+				val = t.bind(t.info.Defs[id])
+			}
+		} else {
+			ety = t.coqType(x, t.info.TypeOf(x.X).Underlying().(*types.Slice).Elem())
+			if id, ok := x.Key.(*ast.Ident); ok && id.Name != "_" {
+				key = t.bind(t.info.Defs[id])
+			}
+			if id, ok := x.Value.(*ast.Ident); ok && id.Name != "_" {
+				val = t.bind(t.info.Defs[id])
+			}
 		}
 		in2 := ind + "    "
 		lc := sctx{fall: "Cont " + pat, cont: "Cont " + pat, brk: "Brk " + pat, ret: func(v string) string { return "Ret " + t.wrap(v) },
